@@ -58,7 +58,7 @@ CLAIMS["C05"] = ("Cycle verification, proof-level and UNBOUNDED (Verus on the ex
     "visited endpoints are distinct -- proved through an invariant of the bucket linked lists (prev = cyclic predecessor inside the bucket), full coverage of a bucket by the inner loop, injectivity of the walk and a pigeonhole bound; "
     "no index is out of range. The converse (every simple cycle is accepted), termination of the two walking loops, SipHash itself and the two directed variants (cuckarood, cuckaroom; pre-hard-fork only) are NOT decided. "
     "Serialisation (Kani, complete per edge_bits): whatever Proof::read accepts re-encodes to the same bytes (non-zero padding bits refused), every nonce fits edge_bits, decode(encode(p)) == p, edge_bits 0 and >63 refused "
-    "(quick: 10 representative edge_bits, thorough: all 63; proof sizes 42, 8, 5). Difficulty from a proof hash/scaling (Verus). BOUNDED stand-ins kept in the thorough tier only: accept <=> cycle for cycle lengths 4, 6, 8 (Kani, best effort, memory-capped).",
+    "(quick: 10 representative edge_bits, thorough: all 63; proof sizes 42, 8, 5). Difficulty from a proof hash/scaling (Verus). BOUNDED stand-ins kept in the thorough tier only: accept <=> cycle for cycle length 4 (Kani, best effort, memory-capped).",
     VERUS_TB + KANI_TB + "siphash_block / sipnode uninterpreted; one assumed fact about u64::leading_zeros (>= 1 below 2^63) used only for `1 + mask`; proofsize in 1..=2^20.",
     "Verus contracts with list/walk invariants and lemmas on the extracted real verifiers + Kani complete harnesses for serialisation", "6 C05")
 CLAIMS["C06"] = ("Proof-level (Verus, extracted text) at two levels. Pipeline: pipe::process_block leaves the stored head untouched on EVERY error path and when the block has no more work, in which case the extension is "
